@@ -164,6 +164,9 @@ pub fn memory_check(env: &Env, ctx: &Ctx, args: &[String], n: usize, seed: u64, 
             };
             tok += sec.iter().filter(|l| l.token.is_some()).count();
             for mut l in sec {
+                if l.kind == gen::LineKind::HunkHeader {
+                    l.text = gen::renumber_hunk_header(&l.text, 10 + h * 37);
+                }
                 if l.kind == gen::LineKind::Meta {
                     if h > 0 {
                         continue;
